@@ -510,6 +510,39 @@ def r8_9(ctx):
     uses_ws = "is_whitespace" in blob
     lits = [c.as_str() for b in [w] + prog.promoted_of(w) for c, _ in __import__("analysis.rules.c01", fromlist=["_all_consts"])._all_consts(b) if c.as_str()]
     blank_lit = [x for x in lits if x.endswith("(") and x[:-1].strip() == "" and x != "("]
+    # the characters the writer's test accepts inside the group cover every registered kind name (`no-eol` has a hyphen): evaluated per character
+    from ..casefold import cases
+    names = set()
+    from .c04 import _registrations
+    for bb_, maker_, ns_ in _registrations(prog, prog.impl_fn("RuleRegistry", "Default", "default")):
+        names |= set(ns_ or [])
+    chars = sorted({ch for nm in names for ch in nm})
+    cl = [cb for cb in prog.closures_of(w)]
+    rejected = []
+    if cl and chars:
+        for ch in chars:
+            def oracle(t, val, ch=ch):
+                m = mname(t) or ""
+                if m.endswith("is_ascii_lowercase"):
+                    return int(ch.islower() and ch.isascii())
+                if m.endswith("is_ascii_alphabetic"):
+                    return int(ch.isalpha() and ch.isascii())
+                if m.endswith("is_alphabetic"):
+                    return int(ch.isalpha())
+                if m.endswith("is_lowercase"):
+                    return int(ch.islower())
+                return None
+            vals = set()
+            for cb in cl:
+                for r in cases(cb, lambda pl, ch=ch: ord(ch) if (pl["l"] == 2 and pl["p"] in ([], ["*"])) else None, oracle):
+                    if r["end"] == "return":
+                        vals.add(r["known"].get(0))
+            if vals == {0}:
+                rejected.append(ch)
+    ctx.check(bool(chars) and bool(cl) and not rejected, "group-word-covers-kinds", w.where(),
+              "every character of the registered kind names (%s) passes the writer's test for the trailing group" % "".join(chars),
+              "the writer's ends_like_modifier does not accept %s inside the trailing group although a registered kind (%s) contains it: an equal expectation whose text "
+              "ends in ` (no-eol)` is written without ` (equal)` and read back as a no-eol expectation" % (rejected, sorted(n_ for n_ in names if any(c in n_ for c in rejected))))
     if reader_class == "\\s":
         ctx.check(uses_ws and not blank_lit, "separator-class", w.where(), "reader `\\s(`, writer char::is_whitespace before `(`: the same separator class",
                   "the reader accepts any white space before the trailing group (`\\s`), the writer's ends_like_modifier looks for %s only: an equal expectation whose "
